@@ -20,6 +20,14 @@ from anyio import (BrokenResourceError, CancelScope, ClosedResourceError, EndOfS
                    create_memory_object_stream, create_task_group, get_cancelled_exc_class, sleep)
 
 DUR = [0, 0, 0.125, 0.125, 0.25]
+
+
+class FalsyItem(tuple):
+    """An item that is false in a boolean context (equal to and hashed like the plain tuple): whether something was
+    received must never be decided by the truth value of the item."""
+
+    def __bool__(self):
+        return False
 WAKE_LAT = 3
 
 
@@ -460,7 +468,7 @@ class MemRun:
                         self.h.rec("swap", label)
                         self.observe("after clone+close")
                 elif op == "send_nw":
-                    item = (label, seqno)
+                    item = (label, seqno) if seqno % 3 != 2 else FalsyItem((label, seqno))
                     seqno += 1
                     o = self.begin("send", label, None, item=item)
                     o["blocked_since"] = None
@@ -478,7 +486,7 @@ class MemRun:
                 elif op in ("send", "send_closed"):
                     if op == "send_closed" and label in self.open_s:
                         continue
-                    item = (label, seqno)
+                    item = (label, seqno) if seqno % 3 != 2 else FalsyItem((label, seqno))
                     seqno += 1
                     sid = st[1] if len(st) > 1 else None
                     sc = CancelScope()
